@@ -6,6 +6,8 @@
 (*         geometry of the universe is a history of length 1; the longer   *)
 (*         ones are REGROUPINGS of one vertex sequence (same type, same    *)
 (*         flattened numbers, different nesting of parts / rings).         *)
+(*         The universe lies on time ticks 0..4 and, again, LATE = 2^26    *)
+(*         ticks into the recording (wholly, or straddling).               *)
 (*         Geometries of                                                   *)
 (*         different kinds have different shapes, so the state holds them  *)
 (*         as (kind, token string) -- the encoding of GeomValidate -- and  *)
@@ -34,6 +36,7 @@ C == GV!CLOSE
 Thorough == Tier = "thorough"
 Geo == G(kind, GV!Tree(toks))                 \* the geometry of this state as a GeomModel record
 
+IsNumTok(t) == GV!IsNum(t)
 P(t, f) == <<O, t, f, C>>
 L(ks)   == GV!Wrap(ks)
 K(k, s) == [kind |-> k, toks |-> s]
@@ -119,11 +122,28 @@ Pairs(S)  == {<<x, y>> : x, y \in S} \ {<<x, x>> : x \in S}
 Histories == IF Tier = "cov"
              THEN {[kind |-> "MultiPolygon", seq |-> h] : h \in Pairs(MPRegroup(<<L(Closed(RectCCW(0, 0, 4, FMAXT))), L(Closed(RectCW(1, 1, 3, 3)))>>))}
              ELSE UNION {{[kind |-> f.kind, seq |-> h] : h \in Pairs(f.set)} : f \in Families}
-Singles   == {[kind |-> c.kind, seq |-> <<c.toks>>] : c \in Cases}
+(* ---- late geometries: times are only bounded below, frequencies on both sides ---- *)
+\* 2^26 ticks: more seconds than MAX_FREQUENCY has hertz at every time unit of the binder (2^26 / 8 s = 8 388 608 s);
+\* doubled it still is far below TLC's 2^31
+LATE == 67108864
+NumIdx(s, i) == Cardinality({j \in 1..i : IsNumTok(s[j])})
+\* the time coordinates: every number of a time-only kind, the odd-numbered ones of the others
+IsTimeTok(k, s, i) == IsNumTok(s[i]) /\ (k \in TimeOnlyKinds \/ NumIdx(s, i) % 2 = 1)
+\* move every time >= thr late into the recording (thr = 0: the whole geometry; thr = 2: it straddles the origin and the
+\* late region).  t |-> t + LATE on t >= thr is strictly increasing, so normal forms and forward lines stay what they are,
+\* and the rings of the universe (axis-parallel ones, single triangles) stay simple with their holes inside.
+Later(c, thr) == K(c.kind, [i \in DOMAIN c.toks |-> IF IsTimeTok(c.kind, c.toks, i) /\ c.toks[i] >= thr THEN c.toks[i] + LATE ELSE c.toks[i]])
+SomeBoxes == {K("BoundingBox", <<O, tp[1], fp[1], tp[2], fp[2], C>>) : tp \in TPairs, fp \in {<<0, FMAXT>>, <<1, 3>>, <<2, 2>>}}
+LateBase  == IF Tier = "cov" THEN Stamps \cup PolysH
+             ELSE Stamps \cup Intervals \cup Points \cup SomeBoxes \cup Lines2 \cup MPoints \cup Polys \cup PolysH \cup MLines \cup MPolys
+StradBase == IF Tier = "cov" THEN Intervals
+             ELSE Intervals \cup SomeBoxes \cup Lines2 \cup Polys \cup PolysH \cup MPolys
+                  \cup {c \in MPoints \cup MLines : Len(GV!Kids(c.toks)) = 2}
+LateCases == {Later(c, 0) : c \in LateBase} \cup ({Later(c, 2) : c \in StradBase} \ StradBase)
+Singles   == {[kind |-> c.kind, seq |-> <<c.toks>>] : c \in Cases \cup LateCases}
 
 (* ---- the machine ---- *)
 NoShape == [kind |-> "", parts |-> <<>>]
-IsNumTok(t) == GV!IsNum(t)
 NumsOf(s) == SelectSeq(s, IsNumTok)
 Nums == NumsOf(toks)                              \* the flattened coordinate numbers of the current geometry
 Init == /\ \E h \in Singles \cup Histories : kind = h.kind /\ hist = h.seq
@@ -162,6 +182,8 @@ ImplAnchorsRight   == pc = "done" => LET b == B(Geo) IN \A i \in DOMAIN Position
 
 (* ---- laws of the specification itself (b = the bounds of this state's geometry) ---- *)
 LawBoundsOrdered == AtStart => LET b == B(Geo) IN b[1] <= b[3] /\ b[2] <= b[4] /\ b[1] >= 0 /\ b[2] >= 0 /\ b[4] <= FMAXT
+\* only the frequency axis has a ceiling: the end of a late geometry lies beyond FMAXT seconds at every unit, and Req keeps it
+LawTimeHasNoCeiling == AtStart => \A i \in DOMAIN Nums : (IsTimeTok(kind, toks, i) /\ toks[i] >= LATE) => B(Geo)[3] >= LATE
 LawTimeOnlyBand  == (AtStart /\ kind \in TimeOnlyKinds) => LET b == B(Geo) IN b[2] = 0 /\ b[4] = FMAXT
 \* the bounds said a second way: straight from the tokens (odd numbers are times, even numbers frequencies)
 LawBoundsFromTokens ==
